@@ -8,6 +8,7 @@ from .state import State
 from .values import NONE, Num, Str, SStr, Cat, Obj, TupleV, Opaque, Star, Choice, vkey
 from .absint import Raised, Frame, BOOL
 from .model import AnalysisError
+from . import census
 
 PROP = 'C20'
 
@@ -335,6 +336,21 @@ def line_rules(ctx, I):
                            'script lines are not reduced to bare commands')
 
 
+def shared_class_containers(ctx):
+    """a deep copy duplicates what hangs off the instance; a container created in the class body and only ever changed in
+    place is one object for the live state and for every copy of it"""
+    ctx.rule('C20.R10', 'no container created in a class body is changed in place unless every instance gets its own in __init__: '
+                        'class-level objects are not duplicated by copy.deepcopy, so the processor and the live plugin would '
+                        'write into the same one', floor=0)
+    for (cname, attr, lineno, owned, mutation) in census.class_level_mutables(ctx.model):
+        ctx.instance('C20.R10', (cname, attr))
+        if mutation is not None and not owned:
+            ctx.report('C20.R10', '%s.%s' % (cname, attr), 'class-level %s changed in place by %s (%s)' % (attr, mutation[0], mutation[2]),
+                       'the container is created once in the class body, %s.__init__ does not give each instance its own, and %s '
+                       'changes it in place: the processor\'s deep copy of the state shares it with the live state'
+                       % (cname, mutation[0]), line=lineno)
+
+
 def run(ctx, tier):
     declare(ctx)
     ctx.rule('C20.R8', 'the processor\'s private copy starts out equal to the live state: nothing on the construction path (the '
@@ -345,6 +361,7 @@ def run(ctx, tier):
                        'parse() re-assigns every attribute a reader uses, on every path', floor=10)
     from . import rules_c18
     rules_c18.parse_rules(ctx, rules_c18.parser_interp(ctx.model, unroll=2), r5='C20.R7', freshness_only=True)
+    shared_class_containers(ctx)
     I = make_interp(ctx.model, unroll=2 if tier == 'thorough' else 1)
     isolation_rule(ctx, I)
     install_handler_summaries(I)
